@@ -215,7 +215,8 @@ def main(run):
         "at-most-once is proved for a server that answers a request once and for exchanges that start "
         "when no datagram of an earlier exchange is in flight; outside these the code delivers twice "
         "(known findings C07-F1, C07-F2) - see notes/C07.md",
-        "16-bit message ids do not wrap within a run (fewer than 65536 messages per endpoint)",
+        "liveness is proved for runs in which the 16-bit message ids do not wrap (fewer than 65536 "
+        "messages per endpoint); across a wrap the code can lose a request (known finding C07-F5)",
         "retransmission timing is C06's; here only the retransmission counter is modelled"]
     run.prove()
     model = vlib.build_model()
@@ -269,6 +270,24 @@ def main(run):
                                adelay=r.choice([1, 300, 1200, 2500, 4000]),
                                dflt=r.choice([0, 3, 40, 900]), nstart=r.choice([0, 0, 4])),
                     "random-" + kind, True))
+
+    # ------------------------------------------------------------ message-id wrap (finding C07-F5)
+    if not replay_only:
+        wl = ["exw 65535 100", "exw 65534 100", "exw 65535 40000", "exw 300 65400"]
+        wm, wc, _ = tie.run_both(model, drv, wl)
+        for ln, a, b in zip(wl, wm, wc):
+            run.count(ln, True)
+            run.hist("case_kind", "exw")
+            if a != b:
+                V.violation("the library's client does not behave as the model across a message-id wrap: "
+                            "model=%s impl=%s" % (a, b), "correspondence: exw\ncase: %s\nmodel: %s\nimpl:  %s\n"
+                            % (ln, a, b), "tie", no_input=True)
+            f = dict(kv.split("=") for kv in b.split()) if "=" in b else {}
+            if f and int(f.get("resp_last", 1)) + int(f.get("nack_last", 0)) == 0 and f.get("queued") == "0":
+                if not (ln.startswith("exw 65535") and
+                        V.known("C07-F5", "%s -> %s" % (ln, b), "exw")):
+                    V.violation("property fails on the implementation: the last request of '%s' never "
+                                "concluded: %s" % (ln, b), "case: %s\nimpl: %s\n" % (ln, b), "live")
 
     # ------------------------------------------------------------ exc: model and library on the same line
     lines = [c[0] for c in exc]
